@@ -417,7 +417,7 @@ func init() {
 		return []string{usedTable(a[0], t), strings.Join(es, ","), strconv.Itoa(bad)}, nil
 	})
 
-	// optreplay SPEC protein CHOOSERS -> table, status, dna, found, offset, "r1,r2,…"
+	// optreplay SPEC protein CHOOSERS -> table, status, dna, found, offset, "r1,r2,…", touched (did the call touch the global generator)
 	// CHOOSERS = "L:ITEM=w,ITEM=w;K:…": per residue letter the choices in the order the MODEL says NewChooser leaves them.
 	// Optimize seeds math/rand with the wall clock in nanoseconds. The clock is read before and after the call; for
 	// every nanosecond s in that window (and a margin) the harness re-seeds with s and replays the model's picks
@@ -443,15 +443,26 @@ func init() {
 			}
 			choosers[kv[0]] = mc
 		}
+		// does the call touch the GLOBAL generator at all (re-seed it or draw from it)?  Seed it with a constant, call,
+		// and look at the next value: untouched => Optimize draws from a generator of its own and no seed can be recovered
+		// through the global one (the driver then falls back to the membership and frequency judgements).
+		const probeSeed = 20260928
+		rand.Seed(probeSeed)
+		untouchedNext := rand.Int63()
+		rand.Seed(probeSeed)
 		t0 := time.Now().UnixNano()
 		st, dna := c07Optimize(p, t)
 		t1 := time.Now().UnixNano()
+		touched := "1"
+		if rand.Int63() == untouchedNext {
+			touched = "0"
+		}
 		if st != "ok" {
-			return []string{usedTable(a[0], t), st, "", "0", "0", ""}, nil
+			return []string{usedTable(a[0], t), st, "", "0", "0", "", touched}, nil
 		}
 		runes := []rune(p)
 		if len(dna) != 3*len(runes) {
-			return []string{usedTable(a[0], t), st, dna, "0", "0", ""}, nil
+			return []string{usedTable(a[0], t), st, dna, "0", "0", "", touched}, nil
 		}
 		try := func(seed int64, record bool) (bool, []int) {
 			rand.Seed(seed)
@@ -483,9 +494,9 @@ func init() {
 		for _, s := range cands {
 			if ok, _ := try(s, false); ok {
 				_, rs := try(s, true)
-				return []string{usedTable(a[0], t), st, dna, "1", strconv.FormatInt(s-t0, 10), joinInts2(rs)}, nil
+				return []string{usedTable(a[0], t), st, dna, "1", strconv.FormatInt(s-t0, 10), joinInts2(rs), touched}, nil
 			}
 		}
-		return []string{usedTable(a[0], t), st, dna, "0", strconv.FormatInt(t1-t0, 10), ""}, nil
+		return []string{usedTable(a[0], t), st, dna, "0", strconv.FormatInt(t1-t0, 10), "", touched}, nil
 	})
 }
